@@ -2737,13 +2737,19 @@ class Trimesh(Geometry3D):
         Alters `self.faces` by reversing columns, and negating
         `self.face_normals` and `self.vertex_normals`.
         """
+        # make sure nothing stored predates an edit of the arrays
+        self._cache.verify()
         with self._cache:
-            if "face_normals" in self._cache:
-                self.face_normals = self._cache["face_normals"] * -1.0
-            if "vertex_normals" in self._cache:
-                self.vertex_normals = self._cache["vertex_normals"] * -1.0
+            face_normals = self._cache["face_normals"]
+            vertex_normals = self._cache["vertex_normals"]
             # fliplr makes array non-contiguous so cache checks slow
             self.faces = np.ascontiguousarray(np.fliplr(self.faces))
+            # assign negated normals after the faces are reversed
+            # so they are compared against the reversed triangles
+            if face_normals is not None:
+                self.face_normals = face_normals * -1.0
+            if vertex_normals is not None:
+                self.vertex_normals = vertex_normals * -1.0
         # save our normals
         self._cache.clear(exclude=["face_normals", "vertex_normals"])
 
